@@ -10,7 +10,12 @@ COQ_CASE_TYPE = "M_IlpRows.case"
 COQ_CHECK = "M_IlpRows.check_case"
 OBLIGATIONS = ["oilp_feasible_iff_hard_rules", "fgdp_feasible_iff_hard_rules", "oilp_objective_is_cost",
                "fgdp_objective_is_cost", "oilp_optimal_is_min_cost", "fgdp_optimal_is_min_cost",
-               "oilp_parallel_links_refuted", "fgdp_asymmetric_refuted"]
+               "oilp_parallel_links_refuted", "fgdp_asymmetric_refuted",
+               "oilp_rows_force_product", "oilp_rows_feasible_iff", "oilp_rows_encode_sat",
+               "oilp_rows_objective_is_obj", "oilp_rows_optimal_is_min_cost",
+               "fgdp_rows_force_product", "fgdp_rows_feasible_iff", "fgdp_rows_encode_sat",
+               "fgdp_rows_objective_is_obj", "fgdp_rows_optimal_is_min_cost",
+               "oilp_guardsb_sound", "fgdp_guardsb_sound"]
 RULE = ("seeded random tiny instances (<= 5 computations, <= 3 agents; real graph builders; oilp_cgdp on all "
         "four graph models, ilp_fgdp on factor graphs), arbitrary footprints/capacities/hosting costs (incl. "
         "zeros = pinning, default 0)/routes, symmetric communication loads in 75% of the cases; the real "
@@ -20,10 +25,17 @@ RULE = ("seeded random tiny instances (<= 5 computations, <= 3 agents; real grap
 MODELLED = ("theorems: ILP feasibility at an integral point = the hard rules; objective = distribution_cost "
             "(oilp: when no ordered pair of computations is shared by two links; fgdp: symmetric loads, up to a "
             "constant); hence an optimal ILP solution is cost-minimal (solver = oracle); both guards are shown "
-            "necessary by refutation witnesses. Correspondence (not theorems): the captured PuLP rows force every "
-            "linearisation variable to the product of its x variables so that feasibility/objective at each "
-            "distribution equal the model's; distribution_cost equals the model's on each distribution; the oracle "
-            "compares the returned distribution with brute-force enumeration.")
+            "necessary by refutation witnesses. Row level (M_IlpRows, theorems *_rows_*): the constraint rows and "
+            "objective coefficients both methods post are modelled one record per row; proved for all instances: "
+            "the rows force every beta/alpha to the product of its x/f variables, a 0/1 vector satisfies the rows "
+            "iff its x part is the indicator of a distribution meeting the hard rules (+ products), the linear "
+            "objective at such a vector is the integral-point objective, hence a rows-optimal solver answer "
+            "decodes to a cost-minimal distribution. Correspondence (not theorems): the modelled rows/objective "
+            "equal the captured PuLP problem row by row (coefficient sets, sense, rhs; objective coefficients as "
+            "exact integers); the semantic evaluation of the captured problem at each distribution equals the "
+            "model's; distribution_cost equals the model's on each distribution; the theorem guards hold on every "
+            "generated instance; the oracle checks rows vs hard rules at every distribution and compares the "
+            "returned distribution with brute-force enumeration.")
 META = dict(
     level_text=("Proof (Coq) that, in the model of oilp_cgdp and ilp_fgdp (hard rules, both distribution_cost "
                 "functions, ILP objective at integral points incl. the per-pair de-duplication of beta variables), "
@@ -31,10 +43,14 @@ META = dict(
                 "hard rules, for all instances meeting the stated guards (no pair of computations shared by two "
                 "links / symmetric loads), with the solver as an explicit oracle; without the guards the statement "
                 "is refuted (two known findings). The model is tied to /repo on every check by evaluating the real "
-                "PuLP problem and the real distribution_cost at every distribution of generated tiny instances and "
+                "PuLP problem and the real distribution_cost at every distribution of generated tiny instances, by a "
+                "row-by-row comparison of the modelled constraint rows and objective with the captured problem, and "
                 "by a brute-force optimality oracle on the returned distribution."),
-    level_note=("Partial in one respect: the row-level structure of the ILP (linearisation constraints) is validated "
-                "semantically by the correspondence, not modelled row by row. Costs are compared exactly as "
+    level_note=("The row-level structure of both ILPs (pinning, capacity, hosted-once, at-least-one and linearisation "
+                "rows incl. the pinned-end shortcuts, objective coefficients) is modelled row by row, compared with "
+                "the captured PuLP problem on every case, and the reduction rows -> hard rules / products / "
+                "objective is proved for all instances (guards: distinct agent names, links join computations of "
+                "the graph; ilp_fgdp: factor-graph shape, no conflicting zero hosting costs). Costs are compared exactly as "
                 "integers (comm, hosting); 0.8/0.2 weighting as 4*comm+hosting. Trusted: CBC as optimal-solution "
                 "oracle (GLPK is absent), PuLP, Coq kernel/vm_compute, M_Ilp.v, harness."),
     technique="Coq proof over executable Gallina model + semantic comparison of the captured ILP + brute-force oracle",
